@@ -262,6 +262,22 @@ func (fr *Frame) lookupLocal(name string, header *ssa.BasicBlock) (Val, bool) {
 			}
 		}
 	}
+	// rangeindex<k>: the hidden index of the range loop with ordinal k (for invariants of nested loops)
+	if strings.HasPrefix(name, "rangeindex") && len(name) > len("rangeindex") {
+		if k, err := strconv.Atoi(name[len("rangeindex"):]); err == nil && k >= 1 && k <= len(fr.loops) {
+			for _, in := range fr.loops[k-1].Instrs {
+				phi, ok := in.(*ssa.Phi)
+				if !ok {
+					break
+				}
+				if phi.Comment == "rangeindex" {
+					if v, ok := fr.vals[phi]; ok {
+						return v, true
+					}
+				}
+			}
+		}
+	}
 	for _, p := range fr.fn.Params {
 		if p.Name() == name {
 			v, ok := fr.vals[p]
@@ -1124,6 +1140,13 @@ func (e *Env) trMethod(n *EMethod) Val {
 			return x
 		case "Unix":
 			return Val{T: "(div (- " + x.T + " " + unixEpochNs + ") 1000000000)", S: "Int", Ty: types.Typ[types.Int64]}
+		case "Hour", "Minute", "Second", "Day", "Month", "Weekday", "Year":
+			// the same uninterpreted calendar functions the trusted table uses for package time
+			name := map[string]string{"Hour": "cal_hour", "Minute": "cal_minute", "Second": "cal_second", "Day": "cal_day", "Month": "cal_month", "Weekday": "cal_weekday", "Year": "cal_year"}[n.Name]
+			f := u.enc.declFun(name, []string{"Int"}, "Int")
+			return Val{T: app(f, x.T), S: "Int", Ty: types.Typ[types.Int]}
+		case "In":
+			return x
 		}
 	}
 	if x.Ty != nil && isNamedPtr(x.Ty, "google.golang.org/protobuf/types/known/timestamppb", "Timestamp") && n.Name == "AsTime" {
